@@ -34,9 +34,12 @@ def run(ctx):
     R5 = rep.rule('C17.R5', 'Drop drops the live arm of the union', floor=1)
     R6 = rep.rule('C17.R6', 'get() never blocks: only OnceCell::get and get_unchecked', floor=1)
     R7 = rep.rule('C17.R7', 'unsafe impl Sync carries T: Send + Sync and U: Send', floor=1)
+    R8 = rep.rule('C17.R8', 'the unchecked operations of utils::cell are a closed table (each is covered by R1 / R3 / R5); a new one is outside every argument', floor=1)
     n = 0
     for cfg, F in ctx.cfgs(lambda c, f: 'utils' in f):
         n += 1
+        r8(R8, cfg, F)
+        R8.finish_cfg(cfg)
         r1(R1, cfg, F)
         r2(R2, cfg, F)
         r3(R3, cfg, F)
@@ -264,6 +267,33 @@ def r5(R5, cfg, F):
         # type has drop glue says nothing about the value the cell holds once it is initialised)
         skip = b.reachable([0], removed_blocks=[d.bb for d in drops]) & set(b.return_blocks())
         R5.check(not skip, cfg, b.path, 'drop:on-every-path', 'OnceInitCell::drop returns on some path without dropping either arm of the union: what the cell holds there is leaked', b.loc())
+
+
+UNCHECKED = re.compile(
+    r'unwrap_unchecked$|unreachable_unchecked$|::get_unchecked(_mut)?$|assume_init|^std::mem::(transmute|transmute_copy|zeroed|uninitialized|forget)$'
+    r'|^std::mem::ManuallyDrop::<T>::(take|drop|into_inner)$|^std::ptr::(read|write|copy|copy_nonoverlapping|swap|replace|drop_in_place)\b|^std::ptr::(mut_ptr|const_ptr)::.*::(read|write|add|offset|as_ref|as_mut)$'
+    r'|^std::cell::UnsafeCell::<T>::(get|raw_get)$|^std::hint::assert_unchecked$|from_raw|into_raw|new_unchecked$')
+UNCHECKED_REFERENCE = {
+    'std::cell::UnsafeCell::<T>::get', 'std::mem::ManuallyDrop::<T>::drop', 'std::mem::ManuallyDrop::<T>::into_inner',
+    'utils::cell::OnceInitCell::<U, T>::get_unchecked',
+}
+
+
+def r8(R8, cfg, F):
+    """R1 / R3 / R5 argue about the unsafe operations that exist in utils::cell.  A new kind of unchecked operation there
+    (`Option::unwrap_unchecked` on the escaped seed, `unreachable_unchecked`, `assume_init`, a raw read ..) carries an
+    assumption of its own that none of those arguments covers: unclassified until somebody looks at it."""
+    n = 0
+    for b in F.fn_bodies():
+        if 'utils::cell::' not in b.path:
+            continue
+        for c in b.calls():
+            if c.callee and not c.exp and UNCHECKED.search(c.callee.best):
+                n += 1
+                R8.check(c.callee.best in UNCHECKED_REFERENCE, cfg, b.path, 'unchecked-operation:' + c.callee.best,
+                         '`%s` in %s: an unchecked operation that none of the C17 arguments covers (they are made for %s)' % (c.callee.best, b.path, sorted(x.split('::')[-1] for x in UNCHECKED_REFERENCE)), c.loc())
+    if n == 0:
+        R8.missing(cfg, 'unchecked operations in utils::cell')
 
 
 def r6(R6, cfg, F):
